@@ -276,7 +276,10 @@ class Geometry(DaeObject):
                     node.set('source', '#%s' % vert_src)
 
         self.xmlnode.set('id', self.id)
-        self.xmlnode.set('name', self.name)
+        if len(self.name) > 0:
+            self.xmlnode.set('name', self.name)
+        elif 'name' in self.xmlnode.attrib:
+            del self.xmlnode.attrib['name']
 
         for prim in self.primitives:
             if isinstance(prim, triangleset.TriangleSet) and prim.xmlnode.tag != tag('triangles'):
